@@ -8,8 +8,8 @@ import (
 
 type replaySource struct{}
 
-func (replaySource) Int63() int64   { return int64(next(64) >> 1) }
-func (replaySource) Uint64() uint64 { return next(64) }
+func (replaySource) Int63() int64   { return int64(nextNamed("", true) >> 1) }
+func (replaySource) Uint64() uint64 { return nextNamed("", true) }
 func (replaySource) Seed(int64)     {}
 
 var steered = map[uintptr]bool{}
